@@ -1,8 +1,8 @@
 """C13 — ISO 8601 durations and intervals parse to their exact value.
 
 Oracle: fractions.Fraction evaluation of the generated PnYnMnDTnHnMnS / PnW string
-(years and months as written, the rest exact and rounded to the microsecond, ties either
-way); endpoint oracle for the three interval forms.  Hooks: both parse_iso8601
+(years and months as written, the rest exact and rounded to the microsecond, a tie rounding either
+way but identically in both backends); endpoint oracle for the three interval forms.  Hooks: both parse_iso8601
 implementations called directly, pendulum.parse(); the `ovf` configuration runs the same
 workload on the overflow-checked build of the extension (integer sanitizer: every wrap
 reached becomes a PanicException with a Rust source location).
@@ -27,17 +27,17 @@ FLOORS = {"quick": {"py.direct": 100000, "rs.direct": 100000, "parse": 100000, "
           "thorough": {"py.direct": 10**6, "rs.direct": 10**6, "parse": 10**6, "reject": 100000, "too_large": 30000, "interval": 200000,
                        "backend_eq": 10**6}}
 REQUIRED_HOOKS = ["pendulum.parse"]
-TECHNIQUE = "exact rational (fractions.Fraction) oracle at three hooks (both parse_iso8601 implementations, pendulum.parse), endpoint oracle for intervals, overflow-checked extension build as integer sanitizer; same instants re-written with other offsets in one process (history workload)"
+TECHNIQUE = "exact rational (fractions.Fraction) oracle at three hooks (both parse_iso8601 implementations, pendulum.parse), endpoint oracle for intervals, overflow-checked extension build as integer sanitizer; same instants re-written with other offsets in one process (history workload); fractions of 1..400 digits with constructed exact and near half-microsecond ties, judged for backend equality too"
 LEVEL_TEXT = ("every generated duration string is parsed by the compiled parser, the pure-Python parser and pendulum.parse and compared "
               "with the exact rational value (rounded to the microsecond); invalid orders/fractions must be rejected, unrepresentable "
               "numbers must be rejected rather than wrapped (also watched by the overflow-checked build); the three interval forms are "
               "compared with their written/derived endpoints; held on what was observed")
-RULE = ("every subset of designators x integer components of 1..10 digits x fraction strings of 1..9 digits (ties ...5, ...49, ...51) on "
+RULE = ("every subset of designators x integer components of 1..10 digits x fraction strings of 1..9 digits and, for a fifth of them, 10..400 digits (ties ...5, ...49, ...51 and constructed exact half-microsecond ties per unit) on "
         "each admissible unit x ','/'.'; PnW; invalid orders, fractional Y/M, fraction on a non-last component; numbers around 2^31, 2^32, "
         "1e10; intervals start/end, start/duration, duration/end in UTC, fixed offsets and tz=; distinct = (designator subset, digit-count "
         "class, unit carrying the fraction, fraction length, backend-independent); every case is non-trivial")
 ASSUMPTIONS = ["trusted base: fractions.Fraction / integer arithmetic, CPython datetime",
-               "a tie at exactly half a microsecond may round either way", "designator-only strings (P, PT) are not durations and are not judged",
+               "a tie at exactly half a microsecond may round either way (but identically in both backends)", "designator-only strings (P, PT) are not durations and are not judged",
                "PnW combined with other designators is not in the statement's grammar and is not judged"]
 
 UNIT_S = {"W": 7 * 86400, "D": 86400, "H": 3600, "M": 60, "S": 1}
@@ -126,10 +126,13 @@ def judge_duration(M, s, years, months, rest, tag, frac):
             fcls = "nofrac" if not frac else f"frac-on-{frac[0]}:" + ("digits>6" if frac[1] > 6 else "digits>1" if frac[1] > 1 else "digits=1")
             M.check(mon, not bad, f"C13/{'+'.join(bad)}:{backend}:{fcls}", "parsed duration is not the exact value rounded to the microsecond",
                     s=s, got=[gy, gm, grest], expected=[years, months, float(exact_us)])
-        if "py" in res and "rs" in res and (exact_us * 2).denominator == 1 and (exact_us).denominator != 1:
-            M.count("backend_eq.exact_ties_skipped")     # exactly half a microsecond: 'rounded to the microsecond' fixes no tie rule
-        elif "py" in res and "rs" in res:
-            M.check("backend_eq", res["py"] == res["rs"], "C13/backend-mismatch:" + ("nofrac" if not frac else f"frac-on-{frac[0]}"),
+        if "py" in res and "rs" in res:
+            # exactly half a microsecond: 'rounded to the microsecond' fixes no tie rule for the VALUE (either neighbour passes
+            # above), but 'identically in both parser backends' has no exception: the two must pick the same neighbour
+            tie = (exact_us * 2).denominator == 1 and (exact_us).denominator != 1
+            if tie:
+                M.count("backend_eq.exact_ties_judged")
+            M.check("backend_eq", res["py"] == res["rs"], "C13/backend-mismatch:" + ("nofrac" if not frac else f"frac-on-{frac[0]}") + (":exact-tie" if tie else ""),
                     "compiled and pure-Python parser differ", s=s, py=res["py"], rs=res["rs"])
         if "parse" in res:
             M.digest(s, repr(res["parse"]))
@@ -167,6 +170,27 @@ def _num(r, nd):
     return r.randrange(10 ** (nd - 1) if nd > 1 else 0, 10 ** nd)
 
 
+def _tie_digits(r, unit_s):
+    """digits d with 0.d * unit_s seconds == (j + 1/2) microseconds for some integer j, or None"""
+    for _ in range(6):
+        j = r.randrange(0, 10**6) if r.random() < 0.7 else r.randrange(0, 40)
+        x = F(2 * j + 1, 2) / (unit_s * 10**6)
+        t = x.denominator
+        while t % 2 == 0:
+            t //= 2
+        while t % 5 == 0:
+            t //= 5
+        if t != 1 or x >= 1:
+            continue
+        digits = ""
+        while x != 0:
+            x *= 10
+            digits += str(int(x))
+            x -= int(x)
+        return digits
+    return None
+
+
 def gen_duration(r):
     week = r.random() < 0.12
     if week:
@@ -191,12 +215,31 @@ def gen_duration(r):
         txt, val = str(n), F(n)
         is_ym = u == "Y" or (u == "M" and not in_time)
         if i == last and not is_ym and r.random() < 0.6:
-            k = r.choice((1, 1, 2, 3, 6, 7, 9))
+            # "a decimal fraction of any length": mostly 1..9 digits, a fifth of the cases 10..400 digits
+            k = r.choice((1, 1, 2, 3, 6, 7, 9)) if r.random() < 0.8 else r.choice((10, 11, 12, 15, 17, 19, 20, 21, 22, 25, 30, 40, 64, 65, 70, 120, 330, 400))
             digs = "".join(r.choice("0123456789") for _ in range(k))
+            if k > 9 and r.random() < 0.5:
+                digs = digs[:r.randrange(1, 8)].ljust(k, "0")         # a short fraction written with trailing zeros
             if r.random() < 0.3:
                 digs = digs[:-1] + r.choice(("5", "5"))
                 if k > 1 and r.random() < 0.5:
                     digs = digs[:-2] + r.choice(("49", "51"))
+            if r.random() < 0.08:
+                # next to a half-way point whose decimal expansion is long or infinite: its first L digits (just below it)
+                # or those plus one unit in the last place (just above it)
+                j_ = r.randrange(0, 10**6) if r.random() < 0.7 else r.randrange(0, 40)
+                b_ = F(2 * j_ + 1, 2 * UNIT_S[u] * 10**6)
+                if b_ < 1:
+                    L_ = r.choice((7, 9, 12, 16, 17, 18, 20, 24, 25, 26, 30, 45, 60, 90))
+                    v_ = (b_.numerator * 10**L_) // b_.denominator + r.randrange(2)
+                    if 0 < v_ < 10**L_:
+                        digs, k = str(v_).rjust(L_, "0"), L_
+            if r.random() < 0.12:
+                # an exact tie: the fraction of this unit that is a whole number of microseconds plus one half (when it has a
+                # finite decimal expansion); the value may round either way, but both backends must round it the same way
+                t_ = _tie_digits(r, UNIT_S[u])
+                if t_:
+                    digs, k = t_, len(t_)
             txt += r.choice(".,") + digs
             val += F(int(digs), 10 ** k)
             frac = (u if not (u == "M" and in_time) else "Mi", k)
